@@ -241,6 +241,16 @@ theorem trie_end_to_end_closed (fval : Nat → Rat) (fadd : Nat → Nat → Nat)
   exact KV.C03Trie.trie_prob a enc.wf (fun _ => false) fval _ _ rep h st sf w hw (by rw [hbd]; exact hwb) (by rw [hbd]; exact hs)
 
 
+/-- **blank_value_partial** (towards models with blanks): under an exact addition shared by builder and table, the probability
+the builder gives a blank is its basis (probability of the longest real proper prefix, `trie_build_represents_partial`) plus the
+back-offs of the asked contexts `to[1..1+i)`, `i = basedOn … order-1`, in that order — the operand list of the back-off recursion
+`score`.  Missing for `trie_end_to_end` with blanks: identifying this sum with `score a ctx w` and the message-based extension
+marks with `Table.build`'s. -/
+theorem blank_value_partial (fval : Nat → Rat) (fadd : Nat → Nat → Nat) (hadd : ∀ x y, fval (fadd x y) = fval x + fval y)
+    (hz : fval minusZero = 0 ∧ fval plusZero = 0) (gs : List Gram) (b : Blank) :
+    fval (blankProb fadd gs b) = fval b.basis + ((messageKeys b).map (msgValue fval gs)).sum :=
+  blankProb_value fval fadd hadd hz gs b
+
 set_option maxRecDepth 8000
 section ExampleClosed
 open KV.Table KV.Score
